@@ -51,27 +51,30 @@ func mergeHeaders(into, from http.Header) {
 	}
 }
 
-// mergeErrorMetadata merges the metadata of an error a handler returned into
-// the headers or trailers that carry it to the client, leaving out the fields
-// that describe an HTTP message or belong to the protocols. The metadata of
-// an error that came out of a client call holds the whole header block of
-// that other response - Content-Length, Content-Type, Content-Encoding and
-// all. A handler that passes such an error on (return nil, err) must not
-// stamp this response with them.
-func mergeErrorMetadata(into, from http.Header) {
+// mergeMetadata merges metadata that the application handed us - the headers
+// and trailers of a Response or Request, the metadata of an error - into the
+// headers or trailers that carry it to the peer, leaving out the fields that
+// describe an HTTP message or belong to the protocols' own framing. A Response
+// or an error that came out of a client call holds the whole header block of
+// that other response - Content-Length, Content-Type, the encodings and all -
+// and so does a Request that a handler was handed. Code that passes such a
+// value on (return client.Ping(ctx, req); return nil, err) must not stamp
+// this message with them.
+func mergeMetadata(into, from http.Header) {
 	for key, vals := range from {
-		if isProtocolHeader(key) {
+		if isMessageHeader(key) {
 			continue
 		}
 		into[key] = append(into[key], vals...)
 	}
 }
 
-func isProtocolHeader(key string) bool {
+func isMessageHeader(key string) bool {
 	switch http.CanonicalHeaderKey(key) {
 	case "Content-Type", "Content-Length", "Content-Encoding", "Transfer-Encoding",
-		"Connection", "Keep-Alive", "Upgrade", "Te", "Trailer", "Host", "Date",
-		"User-Agent", "Accept-Encoding", "Accept-Post", "Allow":
+		"Connection", "Keep-Alive", "Upgrade", "Te", "Trailer", "Host",
+		"Accept-Encoding", "Grpc-Encoding", "Grpc-Accept-Encoding",
+		"Connect-Content-Encoding", "Connect-Accept-Encoding":
 		return true
 	}
 	return false
